@@ -23,7 +23,13 @@ pub struct Sc {
     pub rounds: Vec<Vec<u32>>,
     pub policy: PolicySpec,
     pub pipe_cap: u32,
+    /// ssh targets name the hub root through a path that contains a colon (`/srv/snap-12:30`,
+    /// a symlink to the root): `host:root` must be split at the FIRST colon
+    #[serde(default)]
+    pub colon_root: bool,
 }
+
+const COLON_ROOT: &str = "/srv/snap-12:30";
 
 // incl. siblings that sort differently as strings and as paths ("sub.txt" vs "sub/…": '.' < '/')
 const NAMES: &[&str] = &["a.txt", "sub/b.bin", "sub.txt", "sp ace", "q'uote", "deep/er/c", "deep/er.x", "deep!", "d$x", "sub/a", "sub-1",
@@ -52,6 +58,9 @@ fn build(sc: &Sc) -> World {
     w.host(HUB).mkdir_p(ROOT, t);
     w.host(HUB).mkdir_p("/home/hub", t);
     w.host(HUB).mkdir_p(crate::stubs::REMOTE_HOME, t);
+    if sc.colon_root {
+        let _ = w.host(HUB).symlink("/", ROOT, COLON_ROOT, t);
+    }
     for (p, c) in &sc.hub_init {
         w.host(HUB).put_file(&format!("{ROOT}/{p}"), &body(*c), t);
     }
@@ -182,6 +191,7 @@ impl Check for C13 {
             rounds,
             policy: PolicySpec::random(&mut r),
             pipe_cap: *r.pick(&[4096u32, 65536, 1 << 20]),
+            colon_root: r.below(5) == 0,
         }
     }
     fn execute(&self, sc: &Sc) -> RunReport {
@@ -200,7 +210,7 @@ impl Check for C13 {
             for &ci in round {
                 let (_, ssh) = &sc.clients[ci as usize];
                 let (host, root) = local_root(ci as usize, *ssh);
-                let target = if *ssh { format!("{HUB}:{ROOT}") } else { ROOT.to_string() };
+                let target = if *ssh { format!("{HUB}:{}", if sc.colon_root { COLON_ROOT } else { ROOT }) } else { ROOT.to_string() };
                 sim.spawn(top(&format!("hubsync{ci}"), &host, &sv(&["copia", "hub-sync", &root, &target]), env_of(&[("HOME", "/home/u")])));
             }
             let out = sim.run();
@@ -364,7 +374,7 @@ impl Check for C13 {
                 let ci = round[0];
                 let (_, ssh) = &sc.clients[ci as usize];
                 let (host, root) = local_root(ci as usize, *ssh);
-                let target = if *ssh { format!("{HUB}:{ROOT}") } else { ROOT.to_string() };
+                let target = if *ssh { format!("{HUB}:{}", if sc.colon_root { COLON_ROOT } else { ROOT }) } else { ROOT.to_string() };
                 let mut cfg = RunCfg::default();
                 cfg.seed = sc.seed ^ 0x5EC0;
                 cfg.pipe_cap = sc.pipe_cap as usize;
